@@ -1011,5 +1011,11 @@ theorem fromPolygon_in_plane (poly : Polygon ℝ) (N : V3 ℝ) (d : ℝ) (t' : M
   obtain ⟨i, hi, hget⟩ := Array.mem_iff_getElem.mp htp
   have := hall i tp (by rw [Array.getElem?_eq_getElem hi, hget])
   exact ⟨this.1, this.2.1, this.2.2.1⟩
+
+/-- the merged outline of `try_get_closed_loop` lies in the polygon's plane -/
+theorem tryGetClosedLoop_in_plane (poly : Polygon ℝ) (N : V3 ℝ) (d : ℝ) (L : Loop ℝ)
+    (hout : ∀ v ∈ poly.outer.vertices, v.dot N = d) (hin : ∀ il ∈ poly.inner, ∀ v ∈ il.vertices, v.dot N = d)
+    (h : poly.tryGetClosedLoop = .ok L) : ∀ v ∈ L.vertices, v.dot N = d :=
+  tryGetClosedLoop_P (P := InPl N d) poly L hout hin h
 end
 end G3d.C01P
